@@ -23,6 +23,7 @@ struct child {
 	struct iv_wait_interest *wi;		/* malloc'ed, freed at unregister */
 	_Atomic int	registered;
 	_Atomic int	outstanding;		/* commands whose status change was not reaped yet */
+	int		stuck_nhist;		/* length of the history at that time */
 	int64_t		stuck_since;		/* real time at which a waiting, unannounced status was first seen with everything blocked */
 	_Atomic int	dead_reaped;		/* terminating status returned by wait4 */
 	_Atomic uint64_t dead_seq;
@@ -168,8 +169,11 @@ void hk_ext_stuck(void)
 			c->stuck_since = 0;
 			continue;
 		}
-		if (c->stuck_since == 0) {
+		/* the clock runs for one particular status change: nothing may have happened to this child since the first look (two
+		 * unrelated glimpses of a status on its way, some time apart, are not a status that has been waiting all that time) */
+		if (c->stuck_since == 0 || c->stuck_nhist != atomic_load(&c->nhist)) {
 			c->stuck_since = now;
+			c->stuck_nhist = atomic_load(&c->nhist);
 			continue;
 		}
 		if (now - c->stuck_since < 200000000LL)
